@@ -1,4 +1,11 @@
 import PkgProofs.Props.Src.SSetMember
+/-!
+# Translated source of the reading methods of `SpecifierSet` = the model
+
+`prereleases` (getter and setter), `__str__`, `__hash__`, `__len__`, `__iter__`, `contains`, `__contains__` against
+`SSet.SpecSet.prereleases/str/len/contains`, for every iteration order `it` of the frozenset that an environment can
+prescribe (`Src.Ordered`), and `Src.ordered_of_perm`: every permutation of the members is prescribed by some environment.
+-/
 namespace Src
 open PyRt Py V S
 open SSet (Member SpecSet CKey key canonical_isOk)
@@ -130,6 +137,13 @@ theorem strsOf_strs (l : List Str) : PySet.strsOf (l.map .str) = some l := by
   | nil => rfl
   | cons x xs ih => simp [PySet.strsOf, ih]
 
+@[simp] theorem setItems_iter (l : List PyVal) : PyRx.setItems (.iter l) = Option.none := by rfl
+
+/-- `sorted(<iterator of strings>)` -/
+theorem sorted_strs (l : List Str) :
+    PySet.sorted_ (.iter (l.map .str)) = .ok (.list ((sortBy strLe l).map .str)) := by
+  simp [PySet.sorted_, strsOf_strs]
+
 /-- `(str(s) for s in …)` over member objects -/
 theorem mapM_str (it : List Member) :
     mapM (fun s => Gen.PySrc.Specifier.__str__ s) (it.map ofMember) = .ok ((it.map fun m => m.1.str).map .str) := by
@@ -142,7 +156,7 @@ theorem mapM_str (it : List Member) :
 theorem SpecifierSet.__str___eq_model (env : Env) (T : SpecSet) (it : List Member) (h : Ordered env T it) :
     Gen.PySrc.SpecifierSet.__str__ env (ofSSet T) = .ok (.str (T.str it)) := by
   simp only [Gen.PySrc.SpecifierSet.__str__, getattr_sset_specs, ok_bind, iter_ord_ofSet env T it h, genexp,
-    iterate_iter, mapM_str, pure_ok, PySet.sorted_, strsOf_strs, str_join_list, SpecSet.str]
+    iterate_iter, mapM_str, pure_ok, sorted_strs, str_join_list, SpecSet.str]
   rfl
 
 /-- `if prereleases is None: prereleases = self.prereleases`, then the rest of the function -/
@@ -183,7 +197,7 @@ theorem SpecifierSet.contains_eq_model (env : Env) (T : SpecSet) (it : List Memb
   cases T.resolve it pre with
   | error e => rfl
   | ok p =>
-    simp only [truthy_bool, truthy_ofOptBool, Version.is_prerelease_eq_model, Version.base_version_eq_model,
+    simp only [truthy_ofOptBool, Version.is_prerelease_eq_model, Version.base_version_eq_model,
       view_version, ok_bind, mkVersion_eq_model, getattr_sset_specs, iter_ord_ofSet env T it h,
       all_gen_contains c hc, S.version]
     cases hs : scan c.base with
@@ -221,7 +235,9 @@ theorem SpecifierSet.__contains___eq_model (env : Env) (T : SpecSet) (it : List 
     Gen.PySrc.SpecifierSet.__contains__ env (ofSSet T) (ofVer "Version" c) = (T.contains it c none false).map PyVal.bool := by
   have key := SpecifierSet.contains_eq_model env T it h c hc none none
   simp only [ofOptBool, Option.getD_none] at key
-  simp only [Gen.PySrc.SpecifierSet.__contains__, key]
-  cases T.contains it c none false <;> rfl
+  unfold Gen.PySrc.SpecifierSet.__contains__
+  first
+    | exact key
+    | (rw [key]; cases T.contains it c none false <;> rfl)
 
 end Src
